@@ -720,7 +720,9 @@ func Replay(i int, raw []byte) child.Result {
 		case "pull":
 			var fm [2]string
 			json.Unmarshal(st.Op[3], &fm)
-			a := []string{"pull", b, "-n", "1"}
+			// (a message of its own: with `reset` in the alphabet the same merge can be made twice, and within one second
+			// two merge commits with the default message would be ONE object)
+			a := []string{"pull", b, "-n", "1", "-m", fmt.Sprintf("merge at step %d", n)}
 			if fm[0] == "force" {
 				a = append(a, "--force")
 			}
@@ -736,7 +738,7 @@ func Replay(i int, raw []byte) child.Result {
 			harnessErr = e.serve(func() { run(e.L, a...) })
 		case "merge":
 			json.Unmarshal(st.X, &mx)
-			a := []string{"merge", "heads/" + b, mx.Other, "-n", "1"}
+			a := []string{"merge", "heads/" + b, mx.Other, "-n", "1", "-m", fmt.Sprintf("merge at step %d", n)}
 			switch str(st.Op[3]) {
 			case "ffonly":
 				a = append(a, "--ff-only")
